@@ -11,12 +11,15 @@
 package main
 
 import (
+	"bytes"
 	"crypto/sha1"
 	"encoding/binary"
 	"encoding/hex"
+	"flag"
 	"fmt"
 	"math"
 	"os"
+	"os/exec"
 	"path/filepath"
 	"sort"
 	"strconv"
@@ -30,6 +33,7 @@ import (
 	"github.com/openGemini/openGemini/lib/util/lifted/vm/protoparser/influx"
 	"verifharness/internal/crashfs"
 	"verifharness/internal/gen"
+	"verifharness/internal/tsdrv"
 )
 
 const mst = "mst"
@@ -1178,6 +1182,28 @@ func main() {
 		runColCase(idx, gen.New(seed), work, kind, func(in *ColInstance) { gen.Emit(in) })
 		return
 	}
+	if len(os.Args) > 3 && os.Args[1] == "curchild" {
+		// child process for the cursor-level cases (the engine's package state is initialised once per process):
+		// curchild <n> <seed>
+		n, _ := strconv.Atoi(os.Args[2])
+		seed, _ := strconv.ParseUint(os.Args[3], 10, 64)
+		work := filepath.Join(os.Getenv("VERIF_WORK"), "c03")
+		_ = os.MkdirAll(work, 0750)
+		os.Args = os.Args[:1]
+		flag.Parse() // the lifted VictoriaMetrics memory package insists on it
+		tsdrv.MaxRowsPerSegment = 16
+		if err := tsdrv.Init(work); err != nil {
+			fmt.Fprintln(os.Stderr, "tsdrv init:", err)
+			os.Exit(3)
+		}
+		rec := crashfs.Install()
+		r := gen.New(seed)
+		for i := 0; i < n; i++ {
+			runCursorCase(i, r.Fork(), work, rec, gen.Tier() != "thorough", func(in *CursorInstance) { gen.Emit(in) })
+		}
+		rec.Uninstall()
+		return
+	}
 	n := 40
 	if len(os.Args) > 1 {
 		n, _ = strconv.Atoi(os.Args[1])
@@ -1231,6 +1257,25 @@ func main() {
 		rf := gen.FromEnv(30003)
 		for i := 0; i < nfault; i++ {
 			runFaultCase(i, rf.Fork(), work, fc, quick, func(in *FaultInstance) { gen.Emit(in) })
+		}
+	}
+	// cursor-level cases: a real shard read through the production cursors after every crash image (child process)
+	ncur := 0
+	if len(os.Args) > 6 {
+		ncur, _ = strconv.Atoi(os.Args[6])
+	}
+	if ncur > 0 {
+		cmd := exec.Command(os.Args[0], "curchild", strconv.Itoa(ncur), strconv.FormatUint(gen.FromEnv(3000003).Uint64(), 10))
+		cmd.Env = append(os.Environ(), "VERIF_WORK="+filepath.Dir(work))
+		cmd.Stdout = os.Stdout
+		var se bytes.Buffer
+		cmd.Stderr = &se
+		if err := cmd.Run(); err != nil {
+			t := se.String()
+			if len(t) > 1500 {
+				t = t[len(t)-1500:]
+			}
+			gen.Emit(&CursorInstance{CurCase: -1, Fail: []string{"the cursor-case process died: " + err.Error() + ": " + t}})
 		}
 	}
 	fmt.Fprintln(os.Stderr, "c03 done")
